@@ -261,9 +261,9 @@ Next == (SysNext \/ EnvNext) /\ UpdOkw /\ UpdLret
 Spec == Init /\ [][Next]_vars
 (* progress: every evaluator/goroutine step and the executor are weakly fair; losses are bounded
    by the LossBudget *variable* (not a state constraint), so cycles are not hidden. *)
-FairSpec == Spec /\ WF_vars(SysNext)
+FairSpec == Spec /\ WF_vars(SysNext /\ UpdOkw /\ UpdLret)
                  /\ \A t \in UNION {G.tasks : G \in Shapes} :
-                        WF_vars(t \in Tasks /\ (ExecStart(t) \/ ExecEnd(t, "OK")))
+                        WF_vars(t \in Tasks /\ (ExecStart(t) \/ ExecEnd(t, "OK")) /\ UpdOkw /\ UpdLret)
 
 -----------------------------------------------------------------------------
 (* Properties (C03) *)
@@ -324,6 +324,7 @@ NeededOnly == [][\A e \in Evals :
                   LET cleared == {x \in Tasks : counts[e][x] > 0 /\ counts'[e][x] = 0} IN
                   NewlyDecided(e) \subseteq NeededFrom(PhasesOf(RangeSeq(RootSeq[e]) \cup lret'[e] \cup cleared))]_vars
 
+(* an evaluation that has started eventually returns (liveness; FairSpec) *)
 Terminates == \A e \in UNION {DOMAIN G.roots : G \in Shapes} :
-                 <>(e \in Evals => pc[e] \in {"done", "new"})
+                 [](e \in Evals /\ pc[e] = "top" => <>(pc[e] = "done"))
 =============================================================================
